@@ -1,5 +1,6 @@
 """C12 - building expressions in a context preserves their meaning (structural part)."""
 import itertools
+import re
 import math
 
 import sympy as sp
@@ -273,6 +274,13 @@ class FloatCtx:
             return ("return", self.ev(e["e"], env))
         if k == "Block":
             return self.block(e, env)
+        if k == "Macro" and e.get("name") == "matches":
+            # `matches!(self.get_const(x), Ok(1.0))`: x is the constant 1
+            mm = re.fullmatch(r"matches!\(self\.get_const\((\w+)\),Ok\((-?[0-9.]+)(?:f32)?\)\)", A.unparse(e).replace(" ", ""))
+            if not mm or mm.group(1) not in env:
+                raise ValueError("expr %s" % A.unparse(e)[:40])
+            v_ = env[mm.group(1)]
+            return ("bool", bool(v_.c and v_.v == float(mm.group(2))))
         if k == "MethodCall" and A.ident(A.strip(e["recv"])) == "self":
             m = e["method"]
             if m in ("op_binary", "op_binary_commutative"):
@@ -344,6 +352,21 @@ class FloatCtx:
             if not t1:
                 return False, env
             return self.cond(c["right"], e1)
+        if c.get("k") == "Binary" and c["op"] == "||":
+            t1, _e1 = self.cond(c["left"], env)
+            if t1:
+                return True, env
+            t2, _e2 = self.cond(c["right"], env)
+            return t2, env
+        if c.get("k") == "Unary" and c["op"] == "!":
+            t1, _e1 = self.cond(c["e"], env)
+            return (not t1), env
+        if c.get("k") == "Path" and A.ident(c) in env and isinstance(env[A.ident(c)], tuple) and env[A.ident(c)][0] == "bool":
+            return env[A.ident(c)][1], env
+        if c.get("k") == "Macro":
+            r_ = self.ev(c, env)
+            if isinstance(r_, tuple) and r_[0] == "bool":
+                return r_[1], env
         if c.get("k") == "LetCond":
             segs, subs = A.pat_variant(c["pat"])
             src = A.ident(A.strip(c["e"]))
@@ -601,7 +624,8 @@ def _pushes_pops(block, todo="todo", stack="stack"):
 def r3_stack_discipline(rule, root=None):
     for fname, enum in (("import", "TreeOp"), ("export", "Op")):
         fn = cfn(fname, root)
-        ms = [m for m in A.find(fn["body"], "Match") if A.ftxt(m["e"]) == "t"]
+        # the match over the popped work item, whatever it is called
+        ms = [m for m in A.find(fn["body"], "Match") if {(A.pat_variant(a["pat"])[0] or [None])[-1] for a in m["arms"]} >= {"Down", "Up"} and A.ident(A.strip(m["e"]))]
         if len(ms) != 1:
             rule.lost("match t { Action::Down .. } in Context::%s" % fname)
             continue
